@@ -3,12 +3,17 @@ import fnmatch, json, logging, os, tempfile, threading
 from ..core import Violation
 
 ID = 'C16'
-MODULES = ['OFModel.Allow']
+MODULES = ['OFModel.Allow', 'OFModel.FacetNames', 'OFModel.LineageBackend', 'OFModel.Gen.PyFacts']
+PROP_FILES = ['C16', 'FacetNamesLemmas', 'C18Facet', 'BackendLemmas', 'C16Backend']
 RULE = ('allow-list kind (None / empty / exact / wildcard, via constructor, OF_SAFE_METRICS or YAML file) x 0-8 metrics with names drawn from a '
         'small alphabet (so patterns hit and miss) x point kind (counter, non-monotonic sum, histogram with short/equal/long counts, gauge, '
-        'no points, opaque); plus batches produced by the real OpenTelemetry SDK (InMemoryMetricReader). non-trivial = at least one metric '
+        'no points, opaque); plus batches produced by the real OpenTelemetry SDK (InMemoryMetricReader). Plus the backend boundary: 1 500 sequences of export cycles (each its own batch, '
+        'names that are not identifiers / collide after normalisation), force_flush and heartbeats on a REAL OpenFilterLineage behind a REAL OTelLineageExporter; the field names of every RUNNING '
+        'event are compared with OFModel/LineageBackend.lean + FacetNames.lean (driver op c16.backend; C16Backend.lean: every RUNNING event carries the LAST non-empty exported facet, whose entries '
+        'stem from allowed metrics; lock-down: the constructor facets only). non-trivial = at least one metric '
         'accepted and at least one rejected, or lock-down with metrics present')
 ASSUMPTIONS = ['OpenTelemetry SDK objects are flattened by the harness into (name, first data point) pairs',
+               'backend boundary: the allow-list is fixed for the life of the exporter (constructor argument); a cycle whose facet is EMPTY leaves the previous facet in place (`if facets:` in update_heartbeat_lineage, `if facet:` in export), so a metric exported - and allowed - in an earlier cycle keeps being sent until a non-empty facet replaces it (C16_backend_stale_witness; counted as stale_facet_events): it cannot resurrect a disallowed one (C16_backend_running_only_allowed); update_heartbeat_lineage and the RUNNING emission are atomic steps (both under _lock: C18Lock.lean); <FILTER>_MODEL_NAME unset; raw subject data off',
                'metric values are integers in generated cases (int()/float() conversions are not compared on fractional values)']
 TRUSTED = ['Python fnmatch is transcribed as OF.Allow.globMatch (*, ?, [seq], [!seq], ranges); differential-tested on every run']
 
@@ -238,6 +243,7 @@ def oracle(case, impl):
         return k.replace('-', '_').replace(' ', '_')
     def field(k):       # lineage.facet_field_name: what cannot be a dataclass field name is replaced by '_'
         k = ''.join(c if c.isascii() and (c.isalnum() or c == '_') else '_' for c in k) or '_'
+        if k.startswith('__'): k = '_' + k.lstrip('_')
         return '_' + k if k[0].isdigit() else k
     if isinstance(facet, (list, type(None))):
         ok_keys = {'_producer', 'schemaURL', 'type', 'model_name'}
@@ -255,7 +261,9 @@ def oracle(case, impl):
 NAMES = ['frames', 'frames_total', 'fps', 'cpu', 'secret', 'det_count', 'a', 'ab', 'abc', 'b[1]', 'x-y', 'Filter_fps', 'm.n', '',
          # names that extend / are extended by names matching the patterns below (prefix / suffix / infix confusions)
          'Filter_fps_by_user', 'frames_total_2', 'abcd', 'fpss', 'xfps', 'a1c_more', 'secret2', 'my_secret', 'det_', 'x-yz', 'FPS', 'Frames']
-PATS = ['*', 'frames*', '*_total', 'f?s', 'a*', '[ab]*', '[!a]*', 'det_*', '*fps', 'a[a-c]', 'secret', 'x-?', '[', 'b[[]1]', '*.*', 'nomatch', '[]a]b', 'a?c']
+PATS = ['*', 'frames*', '*_total', 'f?s', 'a*', '[ab]*', '[!a]*', 'det_*', '*fps', 'a[a-c]', 'secret', 'x-?', '[', 'b[[]1]', '*.*', 'nomatch', '[]a]b', 'a?c',
+        # entries spelled like an EXPORTED histogram key (the docs list histograms that way): they match instrument names ending in _histogram, nothing else
+        'det_count_histogram', 'frames*_histogram', 'fps_histogram', '*_histogram', 'secret_histogram', 'a_histogram']
 
 
 def gen_case(rng):
@@ -335,10 +343,10 @@ def run(ctx):
     logging.disable(logging.CRITICAL)
     res, rng = ctx.result, ctx.rng
     if ctx.replay:
-        cases = [ctx.replay['case']] if ctx.replay.get('case') else []
+        cases = [ctx.replay['case']] if ctx.replay.get('case') and 'backend' not in ctx.replay['case'] else []
     else:
         n = 30000 if ctx.thorough else (6000 if ctx.escalate else 1500)
-        cases = [c['case'] if 'case' in c else c for c in ctx.corpus] + [gen_case(rng) for _ in range(n)] + [gen_e2e_case(rng) for _ in range(n // 5)]
+        cases = [c['case'] if 'case' in c else c for c in ctx.corpus if 'backend' not in (c.get('case') or c)] + [gen_case(rng) for _ in range(n)] + [gen_e2e_case(rng) for _ in range(n // 5)]
     impl = []
     kinds = {}
     for c in cases:
@@ -391,3 +399,7 @@ def run(ctx):
                 res.traces_validated += 1
     res.extra['input_distribution'] = kinds
     res.extra['sdk_batches'] = len(sdk)
+    # what the lineage backend is sent over a sequence of export cycles and heartbeats (C16Backend.lean)
+    import sys as _sys
+    from .. import facetnames
+    facetnames.run_c16(ctx, res, _sys.modules[__name__])
